@@ -160,3 +160,16 @@ func C14StartPipeline(uri string, concurrency int, maxStale time.Duration, now f
 	prom.StartWorkers()
 	return prom
 }
+
+// C14Gc runs the cache's gc (what FailoverGroup.CleanCache does for this server) and returns the number of entries left.
+func (prom *Prometheus) C14Gc() int {
+	prom.cache.gc()
+	prom.cache.mu.Lock()
+	defer prom.cache.mu.Unlock()
+	return len(prom.cache.entries)
+}
+
+// C14TTLs: CacheTTL() of the real query types as the API methods construct them (Config with its default TTL).
+func C14TTLs() (instant, config, flags, metadata time.Duration) {
+	return instantQuery{}.CacheTTL(), configQuery{cacheTTL: time.Minute}.CacheTTL(), flagsQuery{}.CacheTTL(), metadataQuery{}.CacheTTL()
+}
